@@ -25,6 +25,12 @@ fn main() {
         i += 1;
     }
     match scenario.as_str() {
+        "probe" => {
+            // zv probe <receiver kind> <frame text>: what a fresh connection returns for this frame alone
+            let kind = args.get(2).cloned().unwrap_or_default();
+            let text = args.get(3).cloned().unwrap_or_default();
+            println!("{}", rx::reference_verbose(&kind, text.as_bytes()));
+        }
         "rx" => rx::main(&o),
         "rx-bounds" => rx::main_bounds(&o),
         "chain" => chain::main(&o),
